@@ -114,8 +114,10 @@ def session_phase(prop, tier, seed, scratch, log, suites=("struct4", "struct3"))
     plans = []
     for k, sname in enumerate(suites):
         suite = cf.SUITES[sname]
+        # (sessions never contain the construction call 12: it replaces the object, and with it the history whose
+        #  timeline the session checks follow)
         plans.append((sname, suite, {"mode": "random", "count": nrand, "length": 40, "seed": seed + 17 * k,
-                                     "kinds": suite["kinds"], "p_undo": 0.28, "p_redo": 0.2}))
+                                     "kinds": [k_ for k_ in suite["kinds"] if k_ != 12], "p_undo": 0.28, "p_redo": 0.2}))
     if "struct4" in suites:
         # all sequences over the edit alphabets of MCHist.tla (+ undo, redo), after their prefixes
         alph, pre = alphabets(), prefixes()
@@ -128,7 +130,7 @@ def session_phase(prop, tier, seed, scratch, log, suites=("struct4", "struct3"))
         if sname in CTL_SUITES and prop != "C20":
             suite = cf.SUITES[sname]
             plans.append((f"ctl_{sname}", suite, {"mode": "ctl", "count": nrand // 2, "length": 30, "seed": seed + 5,
-                                                  "kinds": suite["kinds"]}))
+                                                  "kinds": [k_ for k_ in suite["kinds"] if k_ != 12]}))
     for sname, suite, spec in plans:
         if spec["mode"] == "ctl":
             shards, info = sessions(suite, spec, scratch, f"inv_{sname}", script="ctl.py")
@@ -177,9 +179,9 @@ def run(prop, tier, seed, replay_path=None):
         nctl = 160 if tier == "quick" else 3000
         for k, sname in enumerate(CTL_SUITES):
             cs = cf.SUITES[sname]
-            plans.append((cs, {"mode": "ctl", "count": nctl, "length": 30, "seed": seed + 31 * k, "kinds": cs["kinds"]},
+            plans.append((cs, {"mode": "ctl", "count": nctl, "length": 30, "seed": seed + 31 * k, "kinds": [k_ for k_ in cs["kinds"] if k_ != 12]},
                           f"ctl_{sname}"))
-        plans.append((s4, {"mode": "ctlp", "count": nctl // 2, "length": 12, "seed": seed + 7, "kinds": s4["kinds"],
+        plans.append((s4, {"mode": "ctlp", "count": nctl // 2, "length": 12, "seed": seed + 7, "kinds": [k_ for k_ in s4["kinds"] if k_ != 12],
                            "partial": True}, "ctlp_struct4"))
         samples = []
         for suite, spec, tag in plans:
